@@ -402,7 +402,7 @@ pub fn case_from_json(j: &Value) -> Case {
 }
 
 /// `bwh replay --out DIR cases.jsonl`: re-run recorded / hand-written cases
-pub fn replay(path: &str, out: &str) -> anyhow::Result<()> {
+pub fn replay(path: &str, out: &str, no_impl: bool) -> anyhow::Result<()> {
     let text = std::fs::read_to_string(path)?;
     let mut ctx = Ctx::new();
     let mut rows = vec![];
@@ -411,7 +411,7 @@ pub fn replay(path: &str, out: &str) -> anyhow::Result<()> {
         let j: Value = serde_json::from_str(line)?;
         let case = case_from_json(&j);
         let cj = case_json(&mut ctx, &case);
-        let ij = run_impl(&mut ctx, &case);
+        let ij = if no_impl { json!({"skipped": true}) } else { run_impl(&mut ctx, &case) };
         rows.push((cj, ij));
     }
     write_out(out, &rows)
